@@ -2,7 +2,9 @@ package c02
 
 import (
 	"context"
+	"encoding/json"
 	"fmt"
+	"sort"
 	"strings"
 	"testing"
 
@@ -122,6 +124,7 @@ func checkCase(c Case) fw.Outcome {
 		out.Violation = fmt.Sprintf("supported path expression %q does not compile: %v", src, err)
 		return out
 	}
+	var firstTrace []tree.Call
 	for pass := 0; pass < 2; pass++ {
 		m, want, werr := models[pass], wants[pass], werrs[pass]
 		tr := &tree.Tree{}
@@ -129,6 +132,9 @@ func checkCase(c Case) fw.Outcome {
 			tr.Absent = func(v string) bool { return onlyFirst[v] }
 		}
 		res := xpath.NewCtxFromCurrent(context.Background(), mach, tr.At(ctxs[pass])).SetDebug(len(src)%3 == pass).Run()
+		if pass == 0 {
+			firstTrace = tr.Trace
+		}
 		var got []Req
 		for _, call := range tr.Trace {
 			if call.Err != "" {
@@ -176,7 +182,57 @@ func checkCase(c Case) fw.Outcome {
 			return out
 		}
 	}
+	// "regardless of predicate order": the same expression with the predicates of every step written in the opposite
+	// order puts exactly the same questions to the data tree (as a multiset: the order of evaluation follows the text)
+	if werrs[0] == nil {
+		rev := sg2Clone(c.Expr)
+		multi := false
+		xp.Walk(rev, func(e *xp.E) {
+			for p := e.P; p != nil; p = p.Deref {
+				for i := range p.Steps {
+					if ps := p.Steps[i].Preds; len(ps) >= 2 {
+						multi = true
+						for a, b := 0, len(ps)-1; a < b; a, b = a+1, b-1 {
+							ps[a], ps[b] = ps[b], ps[a]
+						}
+					}
+				}
+			}
+		})
+		if multi {
+			out.Labels = append(out.Labels, "preds-reversed")
+			rsrc := xp.Join(xp.Tokens(rev, xp.MinParens), nil)
+			rm, err := expr.NewExprMachine(rsrc, mapFn)
+			if err != nil {
+				out.Violation = fmt.Sprintf("%q compiles, the same with the predicates in the opposite order (%q) does not: %v", src, rsrc, err)
+				return out
+			}
+			tr := &tree.Tree{}
+			xpath.NewCtxFromCurrent(context.Background(), rm, tr.At(ctxs[0])).Run()
+			questions := func(calls []tree.Call) []string {
+				var q []string
+				for _, call := range calls {
+					q = append(q, call.Op+" "+call.Recv+" "+call.Arg)
+				}
+				sort.Strings(q)
+				return q
+			}
+			a, b := questions(firstTrace), questions(tr.Trace)
+			if strings.Join(a, "\n") != strings.Join(b, "\n") {
+				out.Violation = fmt.Sprintf("the questions put to the data tree depend on the order of the predicates\n%q:\n  %s\n%q:\n  %s", src, strings.Join(a, "\n  "), rsrc, strings.Join(b, "\n  "))
+				return out
+			}
+		}
+	}
 	return out
+}
+
+// sg2Clone deep-copies an expression through JSON.
+func sg2Clone(e *xp.E) *xp.E {
+	b, _ := json.Marshal(e)
+	var out xp.E
+	_ = json.Unmarshal(b, &out)
+	return &out
 }
 
 var paths = fw.Register(&fw.Prop[Case]{
